@@ -441,7 +441,21 @@ pub fn replay_rows<P: PT, C: Coll<P>>(
                     let mut ee = vec![];
                     tree_entries(&ctx.norm_tree(f), &mut ee);
                     let exp_e: Vec<Value> = ee.iter().map(|x| json!({"n": x[0], "h": x[1], "v": x[2]})).collect();
-                    if let Some(l) = c.obs_line(ctx, &universe) {
+                    // the exact-match sweep must reach every key the state holds or should hold (explicit-key
+                    // universes go deeper than the 3-bit default)
+                    let mut uni2 = universe.clone();
+                    let mut real_e = vec![];
+                    tree_entries(&c.tree(ctx), &mut real_e);
+                    for x in ee.iter().chain(real_e.iter()) {
+                        let bits = Ctx::bits(&x[0]);
+                        for l in 0..=bits.len() {
+                            let k = bits[..l].to_vec();
+                            if !uni2.contains(&k) && uni2.len() < 96 {
+                                uni2.push(k);
+                            }
+                        }
+                    }
+                    if let Some(l) = c.obs_line(ctx, &uni2) {
                         let mut v: Value = serde_json::from_str(&l).unwrap();
                         v["expE"] = Value::Array(exp_e);
                         writeln!(side, "{}", serde_json::to_string(&v).unwrap()).unwrap();
